@@ -258,10 +258,13 @@ def ufunc_class_factory(name, nargin, nargout, docstring):
             else:
                 return getattr(x[0].ufuncs, name)(*x[1:])
         else:
+            # Ufuncs with several outputs expect a tuple of output elements
+            out_arg = out if nargout == 1 else tuple(out)
             if nargin == 1:
-                return getattr(x.ufuncs, name)(out=out)
+                getattr(x.ufuncs, name)(out=out_arg)
             else:
-                return getattr(x[0].ufuncs, name)(*x[1:], out=out)
+                getattr(x[0].ufuncs, name)(*x[1:], out=out_arg)
+            return out
 
     def __repr__(self):
         """Return ``repr(self)``."""
